@@ -45,7 +45,17 @@ Pool == <<
                      FnDecl("function", "close", VisAttr("external") \o <<ModAttr("auth", 0 - 1)>>, NoParams, <<>>, TRUE,
                             <<DestructCall("selfdestruct", Payable(Var("heir")))>>)>>),
     Ct("TightAddr", <<StateVar("ta1", U256, <<>>, <<>>), StateVar("ta2", Ty("address", 0), <<>>, <<>>),
-                      Fn("setTa", "public", <<Asg("ta1", Num("1")), Asg("ta2", MsgSender)>>)>>)
+                      Fn("setTa", "public", <<Asg("ta1", Num("1")), Asg("ta2", MsgSender)>>)>>),
+    \* TYPES declared in one item and used in another (an enum at file level / inside a contract, a struct whose field
+    \* is of that type by its bare name): what is reported for the user does not depend on whether the declaring item is there
+    N("SUP.EnumDefinition", [name |-> "Mode", values |-> <<"Up", "Down">>], <<>>),
+    N("SUP.StructDefinition", [name |-> "ModeRec", fields |-> <<[name |-> "lo", storage |-> ""], [name |-> "m", storage |-> ""], [name |-> "hi", storage |-> ""]>>],
+      <<<<Ty("uint", 128), Var("Mode"), Ty("uint", 128)>>>>),
+    Ct("KindHolder", <<N("CP.EnumDefinition", [name |-> "Kind", values |-> <<"A", "B">>], <<>>)>>),
+    Ct("KindUser", <<N("CP.StructDefinition", [name |-> "KindRec", fields |-> <<[name |-> "k1", storage |-> ""], [name |-> "k2", storage |-> ""], [name |-> "k3", storage |-> ""]>>],
+                       <<<<Ty("uint", 128), Var("Kind"), Ty("uint", 128)>>>>),
+                     StateVar("ku1", Ty("uint", 128), <<>>, <<>>), StateVar("ku2", Var("Mode"), <<>>, <<>>), StateVar("ku3", Ty("uint", 128), <<>>, <<>>),
+                     Fn("setKu", "public", <<Asg("ku1", Num("1")), Asg("ku3", Num("2"))>>)>>)
 >>
 P == 1 .. Len(Pool)
 L(lab, t) == [label |-> lab, tree |-> t]
